@@ -21,6 +21,9 @@
 mod description;
 mod formatting;
 pub mod transformer;
+/// Verification hooks (event sink), only with `--cfg scale_typegen_verif`.
+#[cfg(scale_typegen_verif)]
+pub mod verif_hooks;
 
 #[cfg(feature = "type-example")]
 pub use scale_typegen;
